@@ -778,8 +778,10 @@ class MaterialIndexer(Indexer):
         if self is other: return
         phase_indexer = self._phase_indexer
         if isinstance(other, ChemicalIndexer):
-            self.empty()
             other_data = other.data
+            for row in self.data.rows:
+                if row is other_data: other_data = other_data.copy(); break # `other` is a phase view of this indexer
+            self.empty()
             phase = other.phase
             if phase not in phase_indexer:
                 self._expand_phases(phase)
@@ -788,7 +790,6 @@ class MaterialIndexer(Indexer):
             if self.chemicals is other.chemicals:
                 self.data.rows[phase_index].copy_like(other_data)
             else:
-                other_data = other.data
                 left_index, right_index = index_overlap(self._chemicals, other._chemicals, [*other_data.nonzero_keys()])
                 self.data.rows[phase_index][left_index] = other_data[right_index] 
         else:
